@@ -177,9 +177,11 @@ def check_p4_iter(ctx, fx, config):
         fin_blocks = [b for b, t in f.calls() if fx.callee(t) == FINISH]
         # the finished test
         fin_true = None
+        fin_blk = None
         for b, sym, tt, ff in bool_switches(f):
             if render(sym) == "self.finished":
                 fin_true = tt
+                fin_blk = b
         key0 = "%s:PROTO.p4iter:%s" % (ctx.prop, f.npath)
         n += 1
         if not ctx.check(fin_true is not None and f.blocks[0]["term"]["k"] == "switch" and render(f.sym_operand(f.blocks[0]["term"]["o"])) == "self.finished",
@@ -192,7 +194,7 @@ def check_p4_iter(ctx, fx, config):
             rv = s_["rv"]
             if rv["k"] == "aggr" and rv.get("variant") == "None" and norm(rv.get("adt", "")).endswith("Option"):
                 n += 1
-                okd = any(f.dominates(fb, b) for fb in fin_blocks) or f.dominates(fin_true, b)
+                okd = any(f.dominates(fb, b) for fb in fin_blocks) or f.edge_dominates(fin_blk, fin_true, b)
                 ctx.check(okd, "PROTO.p4iter", key0 + ":none",
                           "`None` is returned only after finish() or under the finished flag",
                           "the iterator can end (`None`, line %s) without finish(): a stored I/O error or delayed budget breach is lost" % s_.get("ln"),
@@ -201,7 +203,7 @@ def check_p4_iter(ctx, fx, config):
         is_err_true = []
         for b, sym, tt, ff in bool_switches(f):
             if sym[0] == "call" and sym[1].endswith("Result::is_err"):
-                is_err_true.append(tt)
+                is_err_true.append((b, tt))
         k = 0
         for b, i, s_ in f.stmts():
             if s_["k"] == "assign" and s_["p"]["pr"] and render(f.sym_place(s_["p"])) == "self.finished":
@@ -209,7 +211,7 @@ def check_p4_iter(ctx, fx, config):
                 if v[0] == "const" and v[1] is True:
                     n += 1
                     k += 1
-                    okf = must_pass(f, [b], fin_blocks) or any(f.dominates(tt, b) for tt in is_err_true) or returns_only_err_items(f, b)
+                    okf = must_pass(f, [b], fin_blocks) or any(f.edge_dominates(sb, tt, b) for sb, tt in is_err_true) or returns_only_err_items(f, b)
                     ctx.check(okf, "PROTO.p4iter", key0 + ":finished-set#%d" % k,
                               "`finished = true` is followed by finish() on every path (or the item is the document's own error)",
                               "`finished = true` (line %s) can reach a return without finish()" % s_.get("ln"), config, ctx.where(f, ln=s_.get("ln")))
